@@ -153,10 +153,14 @@ def concurrent_schedules(seed, n, big):
 # ------------------------------------------------------------------------------------------------------------------
 def mutators():
     def flip_res(t):
+        # only a Store of ONE datum: the result of a larger set may legitimately depend on the map iteration order
+        calls = {e["op"]: e for e in t if e.get("ev") == "StoreCall"}
         for e in t:
             if e.get("ev") == "StoreRet":
-                e["res"] = "err" if e["res"] == "ok" else "ok"
-                return t
+                c = calls[e["op"]]
+                if len(c["set"]) == 1 and len(c["set"][0]["data"]) == 1 and c["duty"]["type"] != "agg":
+                    e["res"] = "err" if e["res"] == "ok" else "ok"
+                    return t
         return None
 
     def wrong_value(t):
@@ -176,8 +180,9 @@ def mutators():
 
     def drop_store(t):
         # drop the only successful Store of a trace in which a value is returned afterwards
-        oks = [i for i, e in enumerate(t) if e.get("ev") == "StoreRet" and e["res"] == "ok"]
-        if len(oks) != 1 or t[oks[0] - 1].get("ev") != "StoreCall":
+        # (the only Store at all: a failed Store may have stored part of its set)
+        oks = [i for i, e in enumerate(t) if e.get("ev") == "StoreRet"]
+        if len(oks) != 1 or t[oks[0]]["res"] != "ok" or t[oks[0] - 1].get("ev") != "StoreCall":
             return None
         if not any(e.get("ev") == "Return" and "err" not in e["res"] for e in t[oks[0]:]):
             return None
@@ -187,7 +192,7 @@ def mutators():
     def wrong_pubkey(t):
         for e in t:
             if e.get("ev") == "PubKeyRet":
-                e["res"] = "A" if e["res"] != "A" else "notfound"
+                e["res"] = "Z" if e["res"] != "notfound" else "A"
                 return t
         return None
 
@@ -253,8 +258,9 @@ def run(tier, seed):
     # stage 1: schedules
     scheds, g = vlib.gen_schedules(PID, FAMILY, "DutyDBGen", "DutyDBGen.cfg", num=300 if thorough else 40, depth=80, seed=seed,
                                    limit=4000 if thorough else 500)
-    rnd = random_schedules(seed, 3000 if thorough else 400, thorough, 12 if thorough else 2)
-    conc = concurrent_schedules(seed, 1000 if thorough else 80, thorough)
+    n_aggdev = 12 if thorough else 2
+    rnd = random_schedules(seed, 3000 if thorough else 400, thorough, n_aggdev)
+    conc = concurrent_schedules(seed, 1000 if thorough else 60, thorough)
     # stage 2+3
     vlib.conformance(o, FAMILY, TRACE, CFG, "c06", [PROBE], tag="probe", dev_cfgs=DEV)
     probe_hit = any(k == FINDING for k, _ in o.known)
@@ -281,9 +287,11 @@ def run(tier, seed):
         if len(got) < len(ss) and not o.violations:
             raise vlib.Infra("executor stopped after %d of %d %s schedules without a rejected trace" % (len(got), len(ss), tag))
     # binding negative controls on recorded traces
-    tr = vlib.split_traces(vlib.read_ndjson(vlib.workdir(PID) + "/trace_random.ndjson"))
-    tr += vlib.split_traces(vlib.read_ndjson(vlib.workdir(PID) + "/trace_tlcgen.ndjson"))
-    acc = vlib.validate_traces(PID, FAMILY, TRACE, CFG, tr[:300]).accepted
+    # (not on the schedules that aim at the known finding: there the strict spec allows reject as well as keep-first)
+    tr = vlib.split_traces(vlib.read_ndjson(vlib.workdir(PID) + "/trace_tlcgen.ndjson"))[:150]
+    tr += [t for t in vlib.split_traces(vlib.read_ndjson(vlib.workdir(PID) + "/trace_random.ndjson"))
+           if t[0].get("sid", 0) >= n_aggdev][:150]
+    acc = vlib.validate_traces(PID, FAMILY, TRACE, CFG, tr).accepted
     vlib.binding_selftest(o, FAMILY, TRACE, CFG, [tr[i] for i in acc], mutators())
     return vlib.finish(o, "model_checking", RULE,
                        ["a scripted core.Deadliner stands in for the real one: Add answers Expired exactly after the schedule "
